@@ -60,16 +60,17 @@ def run(ctx):
         json.dump(rp.get("replay", rp), open(f"{work}/replay_corpus/r.json", "w"))
         runs = [dict(groups=0, max_log=6, indices=4, allpos=0, corpus=f"{work}/replay_corpus")]
     elif tier == "quick":
-        runs = [dict(groups=500, max_log=9, indices=4, allpos=0, corpus=corpus),
+        runs = [dict(groups=500, max_log=9, indices=4, allpos=0, corpus=corpus, forge=8),
                 dict(groups=80, max_log=4, indices=4, allpos=1, corpus=None)]
     else:
-        runs = [dict(groups=5000, max_log=12, indices=8, allpos=0, corpus=corpus),
+        runs = [dict(groups=5000, max_log=12, indices=8, allpos=0, corpus=corpus, forge=60),
                 dict(groups=400, max_log=5, indices=8, allpos=1, corpus=None),
                 dict(groups=300, max_log=14, indices=6, allpos=0, corpus=None)]
     driver = os.path.join(ctx["driver_dir"], "p3r_driver_c08")
     flags = gadget_checks(ctx["root"])
     violations, hist, samples = [], {}, []
     evaluations = distinct = validated = disagreements = 0
+    forge_evaluations, forge_records = 0, []
     for n, r in enumerate(runs):
         out = f"{work}/run{n}"
         cmd = [ctx["harness"], "mmcs", "--seed", str(seed + 1000 * n), "--groups", str(r["groups"]),
@@ -77,6 +78,9 @@ def run(ctx):
                "--gadget-checks", flags, "--out", out]
         if r["corpus"]:
             cmd += ["--corpus", r["corpus"]]
+        if r.get("forge"):
+            # AIR-level malicious prover (harness/src/c08_forge.rs): real prove_all_tables + verify_all_tables
+            cmd += ["--forge", str(r["forge"])]
         rc, o = sh(cmd, timeout=7200)
         if rc != 0:
             violations.append({"class": "harness-crash", "what": f"harness mmcs exited {rc}: {o[-300:]}",
@@ -84,13 +88,17 @@ def run(ctx):
             continue
         rep = json.load(open(f"{out}/mmcs.report.json"))
         evaluations += rep["evaluations"]; distinct += rep["distinct"]
+        forge_evaluations += rep.get("forge_evaluations", 0)
+        forge_records += rep.get("forge_records", [])[:6]
         for k, v in rep["hist"].items():
             hist[k] = hist.get(k, 0) + v
         samples += rep["samples"][:2]
         for v in rep["violations"]:
             violations.append({"class": v["class"],
                                "what": f"{v['kind']}: native={v['detail']['native']} circuit={v['detail']['circuit']} "
-                                       f"case={v['detail']['case']} shape={json.dumps(v['replay']['shape'])[:160]}",
+                                       f"case={v['detail']['case']} "
+                                       + (f"shape={json.dumps(v['replay']['shape'])[:160]}" if "shape" in v["replay"]
+                                          else f"forged-proof={json.dumps(v['replay'])[:200]} info={json.dumps(v['detail'].get('info'))[:300]}"),
                                "replay": v["replay"]})
         with open(f"{out}/mmcs.cases") as fin:
             rc, mo = sh([driver], stdin=fin, timeout=7200)
@@ -120,6 +128,12 @@ def run(ctx):
            "samples": samples[:4], "input_distribution": hist,
            "traces_validated_against_impl": validated, "disagreements_checked": disagreements,
            "correspondence": CORRESPONDENCE,
+           "malicious_prover": {"proofs_attempted": forge_evaluations, "records": forge_records,
+                                "rule": "arity-2 gadget (KoalaBear D=4 W16, real Poseidon2), real prove_all_tables + verify_all_tables; "
+                                        "per group: honest control (must verify), wrong-root control (must fail), `bits` (direction bits / row / "
+                                        "siblings of another leaf under the claimed index), `leaf` (row values of another tree, single root), "
+                                        "`acc` (hand-wired path exposing mmcs_index_sum, prover-chosen first-row accumulator); the statement read "
+                                        "off the public table is judged by the native verify_batch; accepted + native reject = violation"},
            "gadget_checks_modelled": {name: flags[i] == "1" for i, (_, name) in enumerate(REPAIRS)}}
     return violations, cov
 
